@@ -571,7 +571,7 @@ fn two_hop_bounds(c: &Call, view: &crate::sim::IxView, idx: usize, cov: &mut Cov
                     ix2.data[16..24].copy_from_slice(&thr.to_le_bytes());
                     let mut fork = view.pre.clone();
                     let r = crate::rt::exec_tx_simple(&mut fork, &crate::rt::Tx { ixs: vec![ix2] });
-                    let good = r.ok == expect[i].0 && (r.ok || r.custom() == expect[i].1);
+                    let good = r.ok == expect[i].0;
                     cov.probe("two_hop_threshold_pm1_forks");
                     if !good {
                         out.push(viol("C03", "threshold_boundary", idx, format!("two-hop threshold {} (realised {}): ok={} code={:?}, expected ok={} code={:?}", ["=", "-1", "+1"][i], realised, r.ok, r.custom(), expect[i].0, expect[i].1)));
@@ -681,7 +681,9 @@ impl Monitor for C03 {
                 };
                 for (i, r) in results.iter().enumerate() {
                     if let Some((ok, code)) = r {
-                        let good = *ok == expect[i].0 && (*ok || *code == expect[i].1);
+                        // the statement requires failure, not a particular error code
+                        let _ = code;
+                        let good = *ok == expect[i].0;
                         if !good {
                             out.push(viol("C03", "threshold_boundary", ev.idx, format!("threshold {} (realised {}{}) gave ok={} code={:?}, expected ok={} code={:?}", ["=", "-1", "+1"][i], realised, "", ok, code, expect[i].0, expect[i].1)));
                         }
